@@ -26,6 +26,16 @@ func TestC09Rapid(t *testing.T) {
 		for _, u := range tc.users {
 			l2.Fund(u.Addr, coinOf("stake", 1000))
 		}
+		// a second native token; native tokens may carry ordinary bank metadata (display name, units)
+		natives := []string{"stake", "umin"}
+		for _, u := range tc.users {
+			l2.Fund(u.Addr, coinOf("umin", 500))
+		}
+		if rapid.Bool().Draw(rt, "nativeMetadata") {
+			l2.BK.SetDenomMetaData(l2.Ctx, banktypes.Metadata{Base: "umin", Display: "min", Name: "min", Symbol: "MIN", DenomUnits: []*banktypes.DenomUnit{{Denom: "umin", Exponent: 0}, {Denom: "min", Exponent: 6}}})
+			l2.BK.SetDenomMetaData(l2.Ctx, banktypes.Metadata{Base: "stake", Display: "stake", Name: "stake", Symbol: "STAKE", DenomUnits: []*banktypes.DenomUnit{{Denom: "stake", Exponent: 0}}})
+			c.Class("native-tokens-with-bank-metadata")
+		}
 		exec := tc.executors[0].Str
 		credited := map[string]math.Int{}  // l2 denom -> sum credited to recipients
 		withdrawn := map[string]math.Int{} // l2 denom -> sum of recorded user withdrawals
@@ -48,7 +58,7 @@ func TestC09Rapid(t *testing.T) {
 			return m
 		}
 		repeatSteps(rt, 40, func(i int) {
-			op := drawWeighted(rt, "op", []weighted{{"deposit", 6}, {"withdraw", 7}, {"transfer", 2}, {"reannounce", 2}})
+			op := drawWeighted(rt, "op", []weighted{{"deposit", 6}, {"withdraw", 7}, {"transfer", 2}, {"reannounce", 2}, {"discarded", 2}})
 			switch op {
 			case "deposit", "reannounce":
 				var msg *opchildtypes.MsgFinalizeTokenDeposit
@@ -150,6 +160,31 @@ func TestC09Rapid(t *testing.T) {
 				_ = supplyBefore
 				tc.logf("%s(%s to=%s base=%s) -> refunds=%d", op, msg.Amount, short(msg.To), msg.BaseDenom, len(ws))
 				shape += op[:1]
+			case "discarded":
+				// executor and user transactions that run on a branch which is never written (simulation,
+				// CheckTx, a transaction that fails later): a deposit announcing a base denom for a denom
+				// that has no mapping yet (a bridged denom before its first deposit, or a native token),
+				// then lookups and a withdrawal of it. Nothing of it may be visible afterwards.
+				cands := []string{"umin", "stake"}
+				for _, d := range []string{tcL2Denom(tc, "uinit"), tcL2Denom(tc, "uusdc")} {
+					if _, ok := baseOf[d]; !ok {
+						cands = append(cands, d)
+					}
+				}
+				d := rapid.SampledFrom(cands).Draw(rt, "bdenom")
+				u := tc.users[rapid.IntRange(0, 4).Draw(rt, "bu")]
+				digest := l2.Digest()
+				branchL2(l2, func(b *henv.L2) {
+					r := b.Deliver(opchildtypes.NewMsgFinalizeTokenDeposit(exec, tc.users[0].Str, u.Str, coinOf(d, 50), nextL1, 5, "ubranch", nil))
+					b.Q.BaseDenom(b.Ctx, &opchildtypes.QueryBaseDenomRequest{Denom: d})
+					r2 := b.Deliver(opchildtypes.NewMsgInitiateTokenWithdrawal(u.Str, "l1-addr", coinOf(d, 1)))
+					tc.logf("discarded branch: deposit(%s base=ubranch)=%v withdraw=%v", d, r.Err, r2.Err)
+				})
+				if digest != l2.Digest() {
+					rt.Fatalf("setup: discarded branch changed the state")
+				}
+				c.Class("discarded-branch-announcing-a-base-denom")
+				shape += "x"
 			case "transfer":
 				from, to := tc.users[rapid.IntRange(0, 4).Draw(rt, "tf")], tc.users[rapid.IntRange(0, 4).Draw(rt, "tt")]
 				bal := l2.BK.GetAllBalances(l2.Ctx, from.Addr)
@@ -165,7 +200,7 @@ func TestC09Rapid(t *testing.T) {
 				}
 			case "withdraw":
 				from := tc.users[rapid.IntRange(0, 4).Draw(rt, "wf")]
-				denom := rapid.SampledFrom([]string{tcL2Denom(tc, "uinit"), tcL2Denom(tc, "uinit"), tcL2Denom(tc, "uusdc"), "stake", "l2/unknown", "uinit"}).Draw(rt, "wdenom")
+				denom := rapid.SampledFrom([]string{tcL2Denom(tc, "uinit"), tcL2Denom(tc, "uinit"), tcL2Denom(tc, "uusdc"), "stake", "umin", "l2/unknown", "uinit"}).Draw(rt, "wdenom")
 				bal := l2.Balance(from.Addr, denom)
 				var amt math.Int
 				switch rapid.SampledFrom([]string{"part", "part", "all", "over", "zero"}).Draw(rt, "wamt") {
@@ -246,6 +281,15 @@ func TestC09Rapid(t *testing.T) {
 				res, err := l2.Q.BaseDenom(l2.Ctx, &opchildtypes.QueryBaseDenomRequest{Denom: d})
 				if err != nil || res.BaseDenom != base {
 					rt.Fatalf("C09 violated after step %d: BaseDenom(%s) = %q (err %v), first registered %q\nhistory:\n%s", i, d, res.GetBaseDenom(), err, base, strings.Join(tc.log, "\n"))
+				}
+			}
+			// tokens that never came from L1 have no base denom
+			for _, d := range append([]string{tcL2Denom(tc, "uinit"), tcL2Denom(tc, "uusdc"), "l2/unknown"}, natives...) {
+				if _, ok := baseOf[d]; ok {
+					continue
+				}
+				if res, err := l2.Q.BaseDenom(l2.Ctx, &opchildtypes.QueryBaseDenomRequest{Denom: d}); err == nil {
+					rt.Fatalf("C09 violated after step %d: BaseDenom(%s) = %q although no deposit ever registered that denom\nhistory:\n%s", i, d, res.GetBaseDenom(), strings.Join(tc.log, "\n"))
 				}
 			}
 			q1, _ := l2.Q.NextL2Sequence(l2.Ctx, &opchildtypes.QueryNextL2SequenceRequest{})
